@@ -349,11 +349,14 @@ class C15(Check):
                   '(all characters < U+0100) cookies round-trip through quote/transcode/parse/unquote. Structural proof '
                   'under library contracts + differential correspondence (every single-byte substitution, deletion, '
                   'truncation, signature swap, length change) with an instrumented loader.')
-    level_note_extra = ('unforgeability of HMAC-MD5 is a cryptographic assumption; hmac/base64/pickle and the '
-                        'SimpleCookie header tokeniser enter the theorems as parameters with contracts and the driver as '
-                        'concrete Lean code compared with CPython on every run; names starting with "$", reserved '
-                        'attribute names and an empty plain value are outside the round-trip statement; plain text with '
-                        'a character >= U+0100 is the recorded finding C15:plain-cookie:char>=U+0100')
+    level_note_extra = ('unforgeability of HMAC-MD5 is a cryptographic assumption (the theorems speak of inputs whose '
+                        'signature part is not the MAC of the message part they present); in the general theorems hmac/base64/'
+                        'pickle and the SimpleCookie header reader are parameters with named contracts; for the library as the '
+                        'driver instantiates it the base64 and tokeniser contracts are proved in Lean (Lemmas/B64.lean, '
+                        'Lemmas/CookieTok.lean), leaving pickle.loads(pickle.dumps(x)) == x and agreement of the Lean '
+                        'MD5/HMAC/base64/cookie-tokeniser with CPython (compared on every run); names starting with "$", '
+                        'reserved attribute names and an empty plain value are outside the round-trip statement; plain text '
+                        'with a character >= U+0100 is the recorded finding C15:plain-cookie:char>=U+0100')
     anchors = ['ombott/common_helpers.py', 'ombott/response.py', 'ombott/request_pkg/props_mixin.py',
                'ombott/request_pkg/helpers.py']
     rule = ('cookie names (legal, reserved, illegal) x values (separators, quotes, backslashes, octal look-alikes, '
